@@ -189,6 +189,21 @@ Theorem C02_poll_sound : forall root p,
   StepSpec (fun G s => LiveS G s root p) (spec_I (VObj root) p).
 Proof. exact poll_sound. Qed.
 
+(** The idle-handler contract: an idle call that finds no outstanding promise ends the model run
+    as [Stuck] whatever the handler does; [wait] returns a ready future without any idle call; no
+    run under a fair handler is [Stuck] (or out of fuel).  Hence the executor calls the idle handler
+    only while a promise is outstanding and never after completion. *)
+Theorem C02_idle_needs_outstanding : forall sigma s, outstanding s = [] -> idle sigma s = None.
+Proof. exact idle_needs_outstanding. Qed.
+
+Theorem C02_wait_ready_no_idle : forall fl sigma fuel r s, wait fl sigma fuel (Ready r) s = Done (r, s).
+Proof. exact wait_ready_no_idle. Qed.
+
+Theorem C02_run_never_stuck : forall md sigma fuel jfuel root,
+  fair sigma -> count_async root <= fuel -> resp_depth root < jfuel ->
+  run fixed_flags sigma md fuel jfuel root <> Stuck /\ run fixed_flags sigma md fuel jfuel root <> OutOfFuel.
+Proof. exact run_never_stuck. Qed.
+
 (** The scheduler family the correspondence check runs the model under (an idle round fulfils
     the outstanding promises of minimal rank) is fair, so the theorems above speak about every
     case the check evaluates. *)
@@ -237,6 +252,9 @@ Print Assumptions C02_visible_nulls_agree.
 Print Assumptions C02_conforms_by_reading.
 Print Assumptions C02_sync_reference_lands.
 Print Assumptions C02_poll_sound.
+Print Assumptions C02_idle_needs_outstanding.
+Print Assumptions C02_wait_ready_no_idle.
+Print Assumptions C02_run_never_stuck.
 Print Assumptions C02_check_schedules_fair.
 Print Assumptions C02_refuted_when_mapok_drops_error.
 Print Assumptions C02_refuted_when_after_ranges_by_value.
